@@ -1,5 +1,7 @@
 from subprops import SUB_TB, SUB_ASSUMPTIONS, su_component
 
+import facts
+
 ID = "C07"
 PROP = {
     "modules": ["Gnmi.Props.C07"],
@@ -22,3 +24,7 @@ PROP = {
         "technique": "Lean 4 proof (invariant by induction over operation sequences of a code-shaped model) + model/implementation correspondence on the real Subscribe server",
     },
 }
+PROP.setdefault("pre", []).append(facts.make_step(['subscribe.handler.checks', 'subscribe.send.aclBeforeSend']))
+PROP["modules"].append("Gnmi.Props.C07L")
+PROP["theorems"] += ["Gnmi.C07L." + t for t in ["unauthenticated_if_no_acl", "single_target_denied_early", "never_sends_denied", "never_sends_unwanted",
+    "allowed_unaffected", "allowed_unaffected_proj", "allowed_unaffected_partial", "allowed_still_delivered_stream"]]
